@@ -264,3 +264,51 @@ def _mk_inverse(A, k):
 
 KMER = [_mk_call(A, k) for A, k in PAIRS] + [_mk_inverse(A, k) for A, k in PAIRS]
 CONTRACTS += KMER
+
+
+# --- KmerEncoding.to_string (what str / repr / get_labels / count labels show): the digits taken out of a scalar code are the window's letters --------
+# Verified prefix: up to the digit array `tmp` (the rest wraps it in the alphabet encoding and decodes - C06 kernels).  2 bits per letter only
+# when |A| = 4; base-|A| digits otherwise.
+def _KEnc():
+    from bionumpy.encodings.kmer_encodings import KmerEncoding
+    return KmerEncoding
+
+
+TS_PAIRS = [(4, 1), (4, 3), (4, 6), (2, 3), (3, 1), (3, 3), (5, 3), (21, 2)]
+
+
+def _mk_to_string(A, k):
+    def setup(ctx):
+        st = St()
+        st.A, st.k = A, k
+        st.d = [z3.Int("letter_%d" % j) for j in range(k)]
+        st.selfv = SRec(_KEnc(), _k=k, _alphabet_encoding=SRec(None, alphabet_size=A))
+        st.args = [sum(st.d[j] * (A ** j) for j in range(k))]
+        return st
+
+    def ens(ctx, st, loc):
+        tmp = loc["tmp"]
+        return [("k.digits", I(tmp.length) == k)] + [("digit.%d.is.letter.%d" % (j, j), I(tmp.at(j)) == st.d[j]) for j in range(k)]
+
+    def concretize(model, ctx, st, oid):
+        """the model's letters on the real KmerEncoding.to_string over an alphabet of |A| distinct letters"""
+        from bionumpy.encodings.alphabet_encoding import AlphabetEncoding
+        letters = "ACGTNBDEFHIKLMPQRSVWY"[:A]
+        d = [model.eval(x, model_completion=True).as_long() for x in st.d]
+        kmer_code = sum(d[j] * A ** j for j in range(k))
+        want = "".join(letters[x] for x in d)
+        try:
+            got = _KEnc()(AlphabetEncoding(letters), k).to_string(kmer_code)
+        except Exception as e:
+            return {"reproduced": True, "input": {"alphabet": letters, "k": k, "code": kmer_code}, "exception": repr(e), "expected": want}
+        return {"reproduced": got != want, "input": {"alphabet": letters, "k": k, "code": kmer_code}, "to_string": got, "expected": want}
+
+    return Contract("C13.KmerEncoding.to_string[|A|=%d,k=%d]" % (A, k), target=lambda: _KEnc().to_string, setup=setup, concretize=concretize,
+                    requires=lambda ctx, st: [And(x >= 0, x < A) for x in st.d], ensures=ens, stop_before="chars = EncodedArray(tmp",
+                    callees={"numpy.asanyarray": None} if False else None,
+                    note="prefix: up to the digit array; scalar code (the array branch maps the scalar branch over the elements)",
+                    canaries=([("two bits per letter for every small alphabet", "alphabet_size == 4", "alphabet_size <= 4")] if A < 4 and k > 1 else
+                              [("base-|A| digits for the 4-letter alphabet taken with a wrong shift", "2 * np.arange(self._k)", "3 * np.arange(self._k)")] if A == 4 and k > 1 else []))
+
+
+CONTRACTS += [_mk_to_string(A, k) for A, k in TS_PAIRS]
